@@ -3,5 +3,4 @@
 From Coq Require Import Extraction ExtrOcamlBasic ExtrOcamlZBigInt.
 From GB Require Import Base.Field Extract.Sx Extract.Run.
 Extraction Language OCaml.
-Set Extraction Output Directory "../ocaml".
 Extraction "model.ml" run QcK qc_of sx_eqb.
